@@ -340,7 +340,7 @@ def _is_collection_test(e: ast.AST, vp: str) -> bool:
     return bool(tys) and all(isinstance(t, ast.Name) and t.id in ("list", "tuple", "set", "frozenset") for t in tys)
 
 
-def r10_7_8(ctx) -> None:
+def r10_7_8(ctx, with_r10_8: bool = True) -> None:
     eng = ctx.eng
     fx = Effects(eng.prog, eng.cg)
     B = eng.prog.cls(BASE)
@@ -353,6 +353,8 @@ def r10_7_8(ctx) -> None:
         if m.name.startswith("validate_"):
             mp2 = fx.mutated_params(m)
             ctx.check(m.pos_params[1] not in mp2, "R10.7", m, m.node, f"{m.short} :: value untouched", "a claim validator mutates the claim value", "no store", construct=f"value mutated by {m.name}")
+    if not with_r10_8:
+        return
     init = R.methods.get("__init__")
     if init is None:
         raise AnalysisError("JWTClaimsRegistry.__init__ vanished")
@@ -439,12 +441,140 @@ def r10_10(ctx) -> None:
     ctx.count("R10.10", n, 4, "validate_<claim> methods")
 
 
+def _oracle(claims: dict, options: dict, now, leeway) -> str:
+    """the statement's verdict for one claims set: "ok" or the name of the error class (single-claim probes: no question of which error wins)"""
+    for k, opt in options.items():
+        if opt.get("essential") and claims.get(k) is None:
+            return "MissingClaimError"
+
+    def check_value(k, v):
+        opt = options.get(k)
+        if not opt:
+            return "ok"
+        if not opt.get("allow_blank") and v == "":
+            return "InvalidClaimError"
+        if opt.get("value") is not None and v != opt.get("value"):
+            return "InvalidClaimError"
+        if opt.get("values") is not None and v not in opt.get("values"):
+            return "InvalidClaimError"
+        return "ok"
+    for k, v in claims.items():
+        if k in ("exp", "nbf", "iat"):
+            if not isinstance(v, (int, float)):
+                return "InvalidClaimError"
+            if k == "exp" and v < now - leeway:
+                return "ExpiredTokenError"
+            if k != "exp" and v > now + leeway:
+                return "InvalidTokenError"
+            r = check_value(k, v)
+        elif k == "aud":
+            opt = options.get("aud")
+            r = "ok"
+            if opt:
+                vals = opt.get("values")
+                if vals is None and opt.get("value"):
+                    vals = [opt.get("value")]
+                if vals:
+                    auds = v if isinstance(v, list) else [v]
+                    if not any(x in auds for x in vals):
+                        r = "InvalidClaimError"
+        elif k in options:
+            r = check_value(k, v)
+        else:
+            r = "ok"
+        if r != "ok":
+            return r
+    return "ok"
+
+
+def _claim_probes():
+    out = []
+    now = 1000
+    for leeway in (0, 60):
+        for claim in ("exp", "nbf", "iat"):
+            for v in (now - leeway - 1, now - leeway + 1, now, now + leeway, now + leeway + 1, now - leeway - 0.5, now + leeway + 0.5, "1000", None, [1000], {"a": 1}):
+                out.append(({claim: v}, {}, now, leeway))
+            out.append(({claim: now + 1 if claim == "exp" else now - 1}, {claim: {"value": 424242}}, now, leeway))      # in the window, but not the requested value
+            out.append(({claim: now + 1 if claim == "exp" else now - 1}, {claim: {"values": [now + 1, now - 1]}}, now, leeway))
+    opts = [{}, {"essential": True}, {"essential": False}, {"value": "a"}, {"values": ["a", "b"]}, {"values": []}, {"allow_blank": True}, {"allow_blank": False},
+            {"allow_blank": None, "value": ""}, {"essential": True, "value": "a"}, {"value": 0}, {"value": "a", "values": ["a", "b"]}, {"value": "b", "values": ["a"]}]
+    vals = ["<absent>", None, "a", "b", "c", "", 0, 1, ["a"]]
+    for o in opts:
+        for v in vals:
+            out.append(({} if v == "<absent>" else {"x": v}, {"x": dict(o)}, now, 0))
+    for v in vals:
+        out.append(({} if v == "<absent>" else {"x": v}, {}, now, 0))  # no request at all: ignored
+    for o in ({}, {"value": "a"}, {"values": ["a", "b"]}, {"values": []}, {"value": ""}, {"essential": True}, {"value": "a", "values": ["b"]}, {"allow_blank": False, "value": "a"}):
+        for v in ("a", "c", "", ["a", "x"], ["x"], [], ["c", "b"], "<absent>"):
+            out.append(({} if v == "<absent>" else {"aud": v}, {"aud": dict(o)}, now, 0))
+    out.append(({"x": "a", "exp": now + 10, "zz": {"k": [1]}, "aud": "me"}, {"x": {"value": "a"}, "aud": {"value": "me"}}, now, 5))
+    out.append(({"zz": object}, {}, now, 0))
+    return out
+
+
+def _claims_folded(ctx) -> Optional[List[str]]:
+    """Decide R10.1 - R10.6 and R10.8 by partial evaluation: JWTClaimsRegistry(now, leeway, **request).validate(claims) is folded on a grid of
+    single-claim probes (the boundaries now-leeway-1, now-leeway+1, now+leeway, now+leeway+1, floats, non-numbers; every request option and
+    their combinations; scalar / list audiences) and the outcome compared with the statement's verdict (`_oracle`); exp == now-leeway is left
+    open and not probed.  None when a probe does not fold, a test stays undecided or was decided one way only (DESIGN 11.11): the rules of
+    shape then decide."""
+    import copy as _copy
+    from ..fold import FuncVal, ExtVal, FoldRaise, is_unknown
+    eng = ctx.eng
+    P, F = eng.prog, eng.folder
+    R = P.cls(REG)
+    problems: List[str] = []
+    F.start_trace()
+    try:
+        # R10.8: the clock
+        d = F.instantiate(R, [], {})
+        nw = d.attrs.get("now")
+        txt = repr(nw).replace("ext:", "")
+        if not (isinstance(nw, ExtVal) and txt in ("int(time.time())", "time.time()")):
+            if is_unknown(nw):
+                return None
+            problems.append(f"with no explicit now the registry's clock folds to {txt}, not the current time")
+        if d.attrs.get("leeway") != 0:
+            problems.append(f"the default leeway folds to {d.attrs.get('leeway')!r}")
+        for nw_, lw_ in ((0, 0), (5, 7)):
+            e = F.instantiate(R, [], {"now": nw_, "leeway": lw_})
+            if e.attrs.get("now") != nw_ or e.attrs.get("leeway") != lw_ or isinstance(e.attrs.get("now"), bool):
+                problems.append(f"now={nw_}, leeway={lw_} are stored as now={e.attrs.get('now')!r}, leeway={e.attrs.get('leeway')!r}")
+        for claims, opts, now, leeway in _claim_probes():
+            want = _oracle(claims, opts, now, leeway)
+            given = _copy.deepcopy(claims) if "zz" not in claims or claims["zz"] is not object else dict(claims)
+            before = repr(given)
+            try:
+                inst = F.instantiate(R, [], dict(now=now, leeway=leeway, **_copy.deepcopy(opts)))
+                r = F.call(FuncVal(R.lookup("validate"), None, inst), [given], {})
+                got = "ok"
+                if is_unknown(r):
+                    return None
+            except FoldRaise as ex:
+                got = getattr(getattr(ex.exc, "cls", None), "name", None) or getattr(ex, "name", "") or "?"
+            if got != want:
+                problems.append(f"claims {claims!r} under the request {opts!r} at now={now}, leeway={leeway}: folds to {got}, the statement says {want}")
+            if repr(given) != before:
+                problems.append(f"validate() modifies the claims {claims!r}")
+    except AnalysisError:
+        return None
+    finally:
+        sided = F.one_sided(ignore=(".__init__",))
+    return None if sided else problems
+
+
 def run(ctx) -> None:
-    ctx.guard(r10_1_2_3)
-    ctx.guard(r10_4)
-    ctx.guard(r10_5)
-    ctx.guard(r10_6)
-    ctx.guard(r10_7_8)
+    folded = ctx.guard(_claims_folded)
+    if folded is not None:
+        ctx.check(not folded, "R10.1", None, None, "claims validation folded on the probe grid (R10.1 - R10.6, R10.8)",
+                  "; ".join(folded[:3]) if folded else "", f"{len(_claim_probes())} single-claim probes agree with the statement's verdict", construct="claims validation verdicts")
+        ctx.count("R10.1/probes", len(_claim_probes()), 200, "claims probes")
+    else:
+        ctx.guard(r10_1_2_3)
+        ctx.guard(r10_4)
+        ctx.guard(r10_5)
+        ctx.guard(r10_6)
+    ctx.guard(r10_7_8, folded is None)
     ctx.guard(r10_9)
     ctx.guard(r10_10)
     ctx.assume("Python comparison semantics on the claim values (exotic value types are outside the statement)")
